@@ -2,11 +2,19 @@
    the in-tree interpreter versus Model.EvmCore: outcome class, return data, the contract's
    storage afterwards and the logs. *)
 From Coq Require Import List NArith ZArith Bool.
-From AnnVerif Require Import Base.Bytes Base.Sx Corr.Oracle Model.EvmArith Model.EvmCore.
+From AnnVerif Require Import Base.Bytes Base.Sx Corr.Oracle Model.EvmArith Model.Keccak Model.EvmCore.
 Import ListNotations.
 Open Scope Z_scope.
 
 Definition zb (b : bytes) : list Z := map Z.of_N b.
+
+(* the block hashes the harness's chain reader serves: Keccak-256 of the number's decimal digits *)
+Fixpoint digits (fuel : nat) (n : Z) (acc : list Z) : list Z :=
+  match fuel with
+  | O => acc
+  | S k => if n <? 10 then (48 + n) :: acc else digits k (n / 10) ((48 + n mod 10) :: acc)
+  end.
+Definition harness_blockhash (n : Z) : Z := Model.Keccak.keccak_word (digits 80 n []).
 Definition dKV (s : sx) : option (Z * Z) := match s with SL [SZ k; SZ v] => Some (k, v) | _ => None end.
 Definition dLog (s : sx) : option (list Z * list Z) :=
   match s with SL [t; SB d] => t' <-? dL dZ t ;; Some (t', zb d) | _ => None end.
@@ -32,7 +40,7 @@ Definition check_evmcore (c : sx) : sx :=
         SZ cls; SB ret; store'; logs] =>
     match dL dKV store, dL dKV store', dL dLog logs with
     | Some s0, Some s1, Some lg =>
-      let e := mkEnv addr origin origin value 0 coinbase time number diff gaslimit (zb data) in
+      let e := mkEnv addr origin origin value 0 coinbase time number diff gaslimit (zb data) harness_blockhash in
       match call (N.to_nat 400000) e (zb code) s0 with
       | OUnsup => sx_of_codes [0%N]   (* not covered by the model: accepted unseen, counted by the check *)
       | OOog => sx_of_codes (if cls =? 3 then [] else [1%N; 3%N; Z.to_N cls])
